@@ -184,13 +184,17 @@ _DEG0 = object()
 
 class V:
     __slots__ = ("k", "cls", "is_self", "elem", "const", "anc", "deps", "deg", "fresh", "label", "shares", "ek",
-                 "meths", "node", "carrier", "recv", "alts")
+                 "meths", "node", "carrier", "recv", "alts", "pbind", "items", "fields")
 
     def __init__(self, k, cls=None, is_self=False, elem=None, const=None, anc=F(), deps=F(), deg=_DEG0, fresh=True,
-                 label=False, shares=F(), ek=F(), meths=None, node=None, carrier=None, recv=None, alts=None):
+                 label=False, shares=F(), ek=F(), meths=None, node=None, carrier=None, recv=None, alts=None, pbind=None,
+                 items=None, fields=None):
         # alts: per-branch alternatives ((anc, deps), ...) when the value was assigned on both arms of an if/else;
         # anc / deps are always their union (None = a single alternative)
         self.alts = alts
+        self.pbind = pbind     # functools.partial: (positional values, keyword values) bound in advance
+        self.items = items     # a tuple with components of different kinds (an element of zip / enumerate / items())
+        self.fields = fields   # a record (namedtuple / dataclass instance): field name -> value; .const = its type name
         if deg is _DEG0:       # default: degree 0 in everything; an explicit None is bottom (zero / empty)
             deg = {}
         self.k = k
@@ -222,10 +226,12 @@ class V:
 class _Ctl(frozenset):
     """control-stack entry; .loop = True when it only lasts until the end of the current loop iteration"""
     loop = False
+    brk = False
 
 
 class _Taint(set):
     loop = False
+    brk = False
 
 
 def raw(deps=F(), deg=_DEG0, const=None, carrier=None):
@@ -242,6 +248,12 @@ def join(vs):
     if len(vs) == 1:
         return vs[0]
     ks = {v.k for v in vs}
+    if ks == {"rec"} and len({v.const for v in vs}) == 1:
+        names = []
+        for v in vs:
+            names += [n for n in (v.fields or {}) if n not in names]
+        return V("rec", const=vs[0].const, deps=F().union(*[v.deps for v in vs]),
+                 fields={n: join([v.fields[n] for v in vs if v.fields and n in v.fields]) for n in names})
     for pref in ("E", "obj", "list", "dict", "meth", "raw"):
         if pref in ks:
             k = pref
@@ -419,6 +431,33 @@ class Interp:
         return cx
 
     # -------------------------------------------------------------------------------------------- helpers
+    def record_types(self):
+        """plain record types of the package: `X = namedtuple("X", [...])` at module level and `@dataclass class X` outside
+        the model / explainable hierarchies -> name: (field names in order, defaults {name: expr}, ClassDef or None)"""
+        if getattr(self, "_records", None) is None:
+            recs = {}
+            for m, (rel, tree, _) in self.pm.modules.items():
+                for st in tree.body:
+                    if isinstance(st, ast.Assign) and isinstance(st.value, ast.Call) and norm(st.value.func) in (
+                            "namedtuple", "collections.namedtuple") and len(st.value.args) >= 2 \
+                            and isinstance(st.targets[0], ast.Name):
+                        spec = st.value.args[1]
+                        if isinstance(spec, (ast.List, ast.Tuple)) and all(isinstance(x, ast.Constant) for x in spec.elts):
+                            recs[st.targets[0].id] = ([x.value for x in spec.elts], {}, None)
+                        elif isinstance(spec, ast.Constant) and isinstance(spec.value, str):
+                            recs[st.targets[0].id] = (spec.value.replace(",", " ").split(), {}, None)
+                    if isinstance(st, ast.ClassDef) and any("dataclass" in norm(d) for d in st.decorator_list) \
+                            and st.name not in self.pm.classes_in_hierarchies():
+                        names, dflts = [], {}
+                        for b in st.body:
+                            if isinstance(b, ast.AnnAssign) and isinstance(b.target, ast.Name):
+                                names.append(b.target.id)
+                                if b.value is not None:
+                                    dflts[b.target.id] = b.value
+                        recs[st.name] = (names, dflts, st)
+            self._records = recs
+        return self._records
+
     def cstr(self, e, env):
         if isinstance(e, ast.Constant) and isinstance(e.value, str):
             return e.value
@@ -487,8 +526,16 @@ class Interp:
                 continue
             ai = pm.init_attrs(cn).get(attr)
             if ai is None:
+                kc, cval = pm._class_const(cn, attr)
                 if attr in PLAIN_MODEL_ATTRS:
                     outs.append(RAW0())
+                elif cval is not None:
+                    # a class-level table: names of functions of the class body stand for those functions (unbound:
+                    # they are called with the object as explicit first argument)
+                    cenv = {}
+                    for f_ in pm.own_methods(kc):
+                        cenv[f_.name] = V("meth", meths=[(cn, kc, f_, b.is_self)], const="<unbound>")
+                    outs.append(self.ev(cval, cenv, cx))
                 else:
                     cx.unknown.append(f"attribute {cn}.{attr} not found")
                 continue
@@ -528,11 +575,47 @@ class Interp:
             return V("none", deg=None)
         return raw(const=e.value if isinstance(e.value, str) else None, deg={})
 
+    def get_path(self, v, path, cx, node):
+        """operator.attrgetter("a.b") applied to v"""
+        for part in path.split("."):
+            if v.k != "obj":
+                return raw(v.deps, deg={})
+            v = self.attr_on(v, part, cx, node)
+        return v
+
+    def module_table(self, name, cx):
+        """a module-level table (tuple / list / dict literal bound once to an ALL-CAPS name somewhere in the package) that
+        holds functions — lambdas, names of module-level functions: evaluated where it is read. None if there is none."""
+        memo = self.__dict__.setdefault("_module_tables", {})
+        if name not in memo:
+            memo[name] = None
+            if name.isupper() or "_" in name and name.upper() == name:
+                hits = []
+                for m, (rel, tree, _) in self.pm.modules.items():
+                    for st in tree.body:
+                        if isinstance(st, ast.Assign) and len(st.targets) == 1 and isinstance(st.targets[0], ast.Name) \
+                                and st.targets[0].id == name and isinstance(st.value, (ast.Tuple, ast.List, ast.Dict)):
+                            hits.append((m, tree, st.value))
+                if len(hits) == 1:
+                    memo[name] = hits[0]
+        hit = memo[name]
+        if hit is None:
+            return None
+        m, tree, value = hit
+        menv = {}
+        for st in tree.body:
+            if isinstance(st, ast.FunctionDef):
+                menv[st.name] = V("lambda", node=st, const={}, deg={})
+        return self.ev(value, menv, cx)
+
     def ev_Name(self, e, env, cx):
         if e.id in env:
             return env[e.id]
         if e.id in self.pm.classes:
             return V("class", cls={e.id})
+        t = self.module_table(e.id, cx)
+        if t is not None:
+            return t
         return raw(deg={})
 
     def ev_JoinedStr(self, e, env, cx):
@@ -572,6 +655,10 @@ class Interp:
                 return raw(b.deps if e.attr in ("index", "empty") else F(), deg={})
             return V("raw", deps=b.deps, deg=b.deg if e.attr in LIN_RAW else d_nl(b.deg), shares=b.shares,
                      fresh=b.fresh, carrier="bare" if e.attr in ("magnitude", "m", "_data") else b.carrier, recv=b.recv)
+        if b.k == "rec":
+            if b.fields and e.attr in b.fields:
+                return add_deps(b.fields[e.attr], b.deps)
+            return V("meth", recv=b, const=e.attr)
         if b.k in ("list", "dict"):
             return V("meth", recv=b, const=e.attr)
         return raw(b.deps, deg={})
@@ -653,7 +740,8 @@ class Interp:
 
     def _seq(self, e, env, cx):
         vs = [self.ev(x, env, cx) for x in e.elts]
-        return V("list", elem=join(vs) if vs else None)
+        exact = vs if (0 < len(vs) <= 8 and not any(isinstance(x, ast.Starred) for x in e.elts)) else None
+        return V("list", elem=join(vs) if vs else None, items=exact)
 
     ev_List = ev_Tuple = ev_Set = _seq
 
@@ -776,11 +864,33 @@ class Interp:
         kw = {k.arg: self.ev(k.value, env, cx) for k in e.keywords if k.arg}
         allv = args + list(kw.values())
         alld = F().union(*[deep_deps(a) for a in allv]) if allv else F()
+        if isinstance(f, ast.Attribute) and isinstance(f.value, ast.Name) and f.value.id in ("operator", "itertools", "functools") \
+                and f.value.id not in env:
+            return self.call_name(f.attr, e, args, kw, alld, env, cx)
+        if isinstance(f, ast.Attribute) and f.attr == "from_iterable" and norm(f.value) in ("chain", "itertools.chain") and args:
+            a = args[0]
+            el = self.elem_of(a) if a.k in ("list", "dict") else a
+            inner = self.elem_of(el) if el.k in ("list", "dict") else el
+            return V("list", elem=inner, deps=a.deps | el.deps)
         if isinstance(f, ast.Attribute) and isinstance(f.value, ast.Name) and f.value.id in MODULES \
                 and f.value.id not in env:
             return self.call_module(f.value.id, f.attr, e, args, kw, alld, cx)
+        if isinstance(f, ast.Name) and f.id in env and env[f.id].pbind:
+            pa, pk = env[f.id].pbind
+            args = list(pa) + args
+            kw = dict(pk, **kw)
         if isinstance(f, ast.Name) and f.id in env and env[f.id].k == "lambda":
             return self.call_closure(env[f.id], args, kw, cx)
+        if isinstance(f, ast.Name) and f.id in env and env[f.id].k in ("meth", "getter"):
+            # a local that holds a (bound or unbound) method: a parameter, a row of a dispatch table
+            fv = env[f.id]
+            if fv.k == "getter" and args:
+                return self.get_path(args[0], fv.const, cx, e) if args[0].k == "obj" else raw(alld, deg={})
+            if fv.meths:
+                a2 = args[1:] if (fv.const == "<unbound>" and args) else args
+                return join([self.inline(cn, owner, m, is_self, a2, kw, cx, e) for cn, owner, m, is_self in fv.meths])
+            if fv.recv is not None:
+                return self.call_on_value(fv.recv, fv.const, e, args, kw, alld, env, cx)
         if isinstance(f, ast.Name):
             return self.call_name(f.id, e, args, kw, alld, env, cx)
         if isinstance(f, ast.Attribute) and isinstance(f.value, ast.Call) and isinstance(f.value.func, ast.Name) \
@@ -794,8 +904,16 @@ class Interp:
                     return self.inline(cn, owner, m, slf.is_self, args, kw, cx, e)
             return raw(alld, deg={})
         fv = self.ev(f, env, cx)
+        if fv.pbind and not (isinstance(f, ast.Name) and f.id in env):
+            pa, pk = fv.pbind
+            args = list(pa) + args
+            kw = dict(pk, **kw)
+        if fv.k == "getter" and args:
+            return self.get_path(args[0], fv.const, cx, e) if args[0].k == "obj" else raw(alld, deg={})
         if fv.k == "lambda":          # (lambda x: …)(a), or a closure reached through an expression
             return self.call_closure(fv, args, kw, cx)
+        if fv.k == "meth" and fv.meths and fv.const == "<unbound>" and args:
+            args = args[1:]
         if fv.k == "meth" and fv.meths:
             if isinstance(f, ast.Subscript):     # dispatch through a dict of bound methods
                 cx.ctl.append(fv.deps)
@@ -905,16 +1023,36 @@ class Interp:
                                                                                   "mul", "abs") else F(),
                   carrier=car, recv=b.recv)
             return self.taintdeg(v, cx)
+        if b.k == "rec":
+            _names, _d, rcls = self.record_types().get(b.const, ([], {}, None))
+            m = next((x for x in rcls.body if isinstance(x, ast.FunctionDef) and x.name == name), None) if rcls else None
+            key = ("<record>", b.const, name)
+            if m is None or key in cx.stack or len(cx.stack) > MAX_DEPTH:
+                if name in ("_replace", "_asdict"):
+                    return b
+                cx.unknown.append(f"call of unknown method {b.const}.{name}() in {where[1]}")
+                return raw(alld, deg={})
+            cx.stack.append(key)
+            env2 = self.bind_params(m, args, kw, 1, cx)
+            env2[m.args.args[0].arg] = b
+            saved_ctl, saved_taint = len(cx.ctl), len(cx.taint)
+            out = self.run_fn(m.body, env2, cx)
+            del cx.ctl[saved_ctl:]
+            del cx.taint[saved_taint:]
+            cx.stack.pop()
+            return out
         if b.k == "list":
             if name == "copy":
                 return b
             if name in ("append", "add", "insert") and args:
                 b.elem = join([b.elem, args[-1]]) if b.elem is not None else args[-1]
+                b.items = None
                 return V("none")
             if name in ("extend", "update") and args:
                 src = a0.elem if a0.k in ("list", "dict") else (a0 if a0.k != "raw" else None)
                 if src is not None:
                     b.elem = join([b.elem, src]) if b.elem is not None else src
+                b.items = None
                 return V("none")
             if name in ("index", "count"):
                 return raw(b.deps | alld, deg={})
@@ -1132,6 +1270,16 @@ class Interp:
             els = [self.elem_of(a) if a.k in ("list", "dict") else a for a in args[1:]]
             t = self.call_closure(args[0], els, {}, cx)
             return V("list", elem=add_deps(join(els), t.deps) if els else None, deps=alld)
+        if n in ("zip", "zip_longest") and args and all(a.k in ("list", "dict") for a in args):
+            els = [self.elem_of(a) for a in args]
+            # the pairing depends on the lengths of all the inputs
+            return V("list", elem=V("list", elem=join(els), items=els, deps=alld), deps=alld)
+        if n == "enumerate" and args and args[0].k in ("list", "dict"):
+            el = self.elem_of(args[0])
+            return V("list", elem=V("list", elem=el, items=[raw(args[0].deps, deg={}, carrier="bare"), el]), deps=alld)
+        if n == "map" and len(args) == 2 and args[0].k == "getter":
+            el = self.elem_of(args[1]) if args[1].k in ("list", "dict") else args[1]
+            return V("list", elem=self.get_path(el, args[0].const, cx, e) if el.k == "obj" else raw(alld), deps=args[1].deps)
         if n in ("map", "zip", "enumerate", "filter", "chain", "zip_longest", "islice", "product", "starmap", "repeat",
                  "cycle", "takewhile", "dropwhile", "pairwise", "compress"):
             els = [a.elem for a in args if a.k in ("list", "dict") and a.elem is not None]
@@ -1144,6 +1292,25 @@ class Interp:
             kv = self.call_closure(kf, [el], {}, cx) if (kf is not None and kf.k == "lambda") else el
             grp = add_deps(el, kv.deps | xs.deps)
             return V("list", elem=V("list", elem=grp), deps=xs.deps | kv.deps)
+        if n in self.record_types():
+            names, dflts, _cls = self.record_types()[n]
+            fields = {}
+            for i, a in enumerate(args):
+                if i < len(names):
+                    fields[names[i]] = a
+            for k_, v_ in kw.items():
+                fields[k_] = v_
+            for nm in names:
+                if nm not in fields:
+                    fields[nm] = self.ev(dflts[nm], {}, cx) if nm in dflts else V("none")
+            return V("rec", const=n, fields=fields, deps=cx.ctldeps())
+        if n == "partial" and args and args[0].k in ("meth", "lambda"):
+            pa0, pk0 = args[0].pbind or ((), {})
+            return args[0].clone(pbind=(tuple(pa0) + tuple(args[1:]), dict(pk0, **kw)))
+        if n == "attrgetter" and len(e.args) == 1 and self.cstr(e.args[0], env) is not None:
+            return V("getter", const=self.cstr(e.args[0], env))
+        if n in ("attrgetter", "itemgetter", "methodcaller"):
+            return raw(alld, deg={})
         if n == "divmod":
             return V("list", elem=raw(alld, deg=d_nl(join(args).deg) if args else {}, carrier="bare"), deps=alld)
         if n == "u":
@@ -1240,6 +1407,10 @@ class Interp:
         if isinstance(t, ast.Name):
             env[t.id] = v
         elif isinstance(t, (ast.Tuple, ast.List)):
+            if v.k == "list" and v.items and len(v.items) == len(t.elts):
+                for x, it_ in zip(t.elts, v.items):
+                    self.bind(x, add_deps(it_, v.deps), env, cx)
+                return
             for x in t.elts:
                 self.bind(x, v.elem if (v.k == "list" and v.elem is not None) else v, env, cx)
 
@@ -1257,6 +1428,14 @@ class Interp:
                         valdeps=v.deps | cx.ctldeps(), ctl=cx.ctldeps(), value=v)
             site.alts = tuple((a, d | cx.ctldeps()) for a, d in alts_of(v)) if v.k == "E" else None
             cx.writes.setdefault(tg.attr, []).append(site)
+        elif isinstance(tg, ast.Attribute) and self.ev(tg.value, env, cx).k == "rec":
+            # a field of a (mutable) record: the record stands for every element of the list it sits in, so the field
+            # keeps what it held and gains the new value
+            b = self.ev(tg.value, env, cx)
+            if b.fields is None:
+                b.fields = {}
+            old_f = b.fields.get(tg.attr)
+            b.fields[tg.attr] = v if old_f is None else join([old_f, v])
         elif isinstance(tg, ast.Attribute):
             b = self.ev(tg.value, env, cx)
             if b.k == "obj":
@@ -1288,6 +1467,10 @@ class Interp:
                 elif d.k == "obj":
                     cx.foreign_writes.append((stmt, where, norm(stmt)))
         elif isinstance(tg, (ast.Tuple, ast.List)):
+            if v.k == "list" and v.items and len(v.items) == len(tg.elts):
+                for x, it_ in zip(tg.elts, v.items):
+                    self.assign(x, add_deps(it_, v.deps), env, cx, stmt)
+                return
             for x in tg.elts:
                 self.assign(x, v.elem if (v.k == "list" and v.elem is not None) else raw(v.deps, deg=v.deg), env, cx,
                             stmt)
@@ -1314,22 +1497,69 @@ class Interp:
     def exits(body):
         return bool(body) and isinstance(body[-1], (ast.Return, ast.Raise, ast.Continue, ast.Break))
 
-    def _loop_body(self, body, env, before, cx, rets):
+    def _loop_body(self, body, env, before, cx, rets, keep_break=False):
         """one abstract iteration: `continue` / `break` arms make the rest of the body control dependent on their
-        test (popped again here) and their environments are joined back in at the end of the iteration"""
+        test (popped again here) and their environments are joined back in at the end of the iteration. With
+        keep_break (rows of a literal table run one after the other) the test of a `break` arm stays: the later rows
+        only run when it was false."""
         cx.loop_exits.append([])
         lc, lt = len(cx.ctl), len(cx.taint)
         self.run(body, env, cx, rets)
         envs = cx.loop_exits.pop()
-        cx.ctl[lc:] = [x for x in cx.ctl[lc:] if not getattr(x, "loop", False)]
-        cx.taint[lt:] = [x for x in cx.taint[lt:] if not getattr(x, "loop", False)]
+        keep = (lambda x: keep_break and getattr(x, "brk", False))
+        cx.ctl[lc:] = [x for x in cx.ctl[lc:] if not getattr(x, "loop", False) or keep(x)]
+        cx.taint[lt:] = [x for x in cx.taint[lt:] if not getattr(x, "loop", False) or keep(x)]
         for other in [before] + envs:
             for k in set(other) | set(env):
                 a, b = other.get(k), env.get(k)
                 env[k] = b if a is None else (a if b is None else (a if a is b else join([a, b])))
 
+    def _static_attrs(self, s, env):
+        """`setattr(x, <name>, v)` as the assignment `x.<name> = v` and `getattr(x, <name>)` as `x.<name>` when the name
+        is a constant on this path (a literal, or a parameter the caller bound to one): the helper that fills "the
+        attribute called so-and-so" is read as the caller's own assignment"""
+        if not any(isinstance(n, ast.Call) and isinstance(n.func, ast.Name) and n.func.id in ("setattr", "getattr")
+                   for n in ast.walk(s)):
+            return s
+        me = self
+        from .astutil import clone
+
+        class T(ast.NodeTransformer):
+            def visit_Call(self, node):
+                self.generic_visit(node)
+                if isinstance(node.func, ast.Name) and node.func.id == "getattr" and len(node.args) == 2 \
+                        and not node.keywords:
+                    nm = me.cstr(node.args[1], env)
+                    if nm is not None and nm.isidentifier():
+                        return ast.copy_location(ast.Attribute(value=node.args[0], attr=nm, ctx=ast.Load()), node)
+                return node
+        new = s
+        if isinstance(s, ast.Expr) and isinstance(s.value, ast.Call) and isinstance(s.value.func, ast.Name) \
+                and s.value.func.id == "setattr" and len(s.value.args) == 3 and not s.value.keywords:
+            nm = self.cstr(s.value.args[1], env)
+            if nm is not None and nm.isidentifier():
+                c = clone(s.value)
+                new = ast.copy_location(ast.Assign(
+                    targets=[ast.copy_location(ast.Attribute(value=c.args[0], attr=nm, ctx=ast.Store()), s)],
+                    value=c.args[2]), s)
+        if new is s:
+            new = clone(s)
+        new = T().visit(new)
+        if isinstance(new, ast.Assign):
+            for t in new.targets:
+                for n in ast.walk(t):
+                    if isinstance(n, ast.Attribute) and n is t:
+                        n.ctx = ast.Store()
+        for n in ast.walk(new):
+            for ch in ast.iter_child_nodes(n):
+                ch._parent = n
+        new._parent = getattr(s, "_parent", None)
+        return new
+
     def run(self, body, env, cx, rets):
         for s in body:
+            if isinstance(s, (ast.Expr, ast.Assign, ast.AugAssign, ast.Return)):
+                s = self._static_attrs(s, env)
             if isinstance(s, ast.Assign):
                 v = self.ev(s.value, env, cx)
                 if v.k == "E":
@@ -1351,10 +1581,21 @@ class Interp:
                 tk = {k for k, d in (it.deg or {}).items() if d != 0}
                 cx.taint.append(tk)
                 cx.in_loop += 1
-                for _ in range(2):
-                    before = dict(env)
-                    self.bind(s.target, self.elem_of(it), env, cx)
-                    self._loop_body(s.body, env, before, cx, rets)
+                if it.k == "list" and it.items and not isinstance(s.target, ast.Name) or (
+                        it.k == "list" and it.items and all(x.k in ("list", "meth", "rec", "lambda") for x in it.items)):
+                    # a literal table (tuple of tuples, list of bound methods …): each row in turn, with its own values
+                    base_c, base_t = len(cx.ctl), len(cx.taint)
+                    for row in it.items:
+                        before = dict(env)
+                        self.bind(s.target, add_deps(row, it.deps), env, cx)
+                        self._loop_body(s.body, env, before, cx, rets, keep_break=True)
+                    del cx.ctl[base_c:]
+                    del cx.taint[base_t:]
+                else:
+                    for _ in range(2):
+                        before = dict(env)
+                        self.bind(s.target, self.elem_of(it), env, cx)
+                        self._loop_body(s.body, env, before, cx, rets)
                 cx.in_loop -= 1
                 self.run(s.orelse, env, cx, rets)
                 cx.taint.pop()
@@ -1411,6 +1652,7 @@ class Interp:
                                            for b, x in ((s.body, x1), (s.orelse, x2)) if x):
                     # the rest of the loop body is control dependent on the test (dropped again by _loop_body)
                     ce.loop = te.loop = True
+                    ce.brk = te.brk = all(isinstance(b[-1], ast.Break) for b, x in ((s.body, x1), (s.orelse, x2)) if x)
                     cx.loop_exits[-1].append(e1 if x1 else e2)
                 # else: the rest of the function is control dependent on the test (restored by inline)
             elif isinstance(s, ast.Return):
